@@ -231,6 +231,8 @@ def run(P, R, tier):
     from ..engines import dtype as _dt
     n_dt = _dt.check_function(P, R, "wccn:WCCN.fit", raw_params=("X",)) + _dt.check_function(P, R, "whitening:Whitening.fit", raw_params=("X",))
     R.floor("DTYPE.raw sites (WCCN / whitening)", n_dt, 1)
+    from ..engines import traps as _traps
+    _traps.check(P, R, ['wccn', 'whitening'], scope='(wccn:|whitening:)')
 
 
 EXPLANATION += " Also: (AFFINE) the fitted divisor is 1 and WCCN's offset 0, Whitening.fit stores the training mean; (POL.wccn-scale) the scatter is scaled by 1 / K and no other literal; (DTYPE.raw)."
